@@ -587,6 +587,39 @@ def rule_s(prog, chk):
     chk.floor("C03s", n, 1)
 
 
+def rule_t(prog, chk):
+    """C03t - the radii of an anisotropy belong to the ANISOTROPY axes.  The direct rotation matrix R maps anisotropy-axis coordinates to
+    user coordinates (its columns are the anisotropy axes), the inverse matrix R^-1 maps user coordinates to anisotropy-axis coordinates
+    (its rows are the anisotropy axes).  A tensor built in Tensor by scaling a rotation matrix with the radii therefore scales the
+    COLUMNS of the direct matrix or the ROWS of the inverse matrix; the other two combinations attach the radii to the user's axes
+    and describe the mirrored rotation (the frequential tensor used by the spectral evaluation was diag(r).R instead of diag(r).R^-1)."""
+    n = 0
+    for f in sorted(prog.funcs, key=lambda x: (x.file, x.line)):
+        if f.cls != "Tensor" or f.body is None:
+            continue
+        src = {}
+        for x in f.walk():
+            if x["k"] in ("Assign", "OpCall") and x.get("op") == "=" and x["c"][0] is not None and x["c"][0]["k"] == "MemberExpr" and x["c"][1] is not None:
+                for y in walk(x["c"][1]):
+                    if y["k"] == "MCall" and (y.get("callee") or "").split("::")[-1] in ("getMatrixDirect", "getMatrixInverse"):
+                        src[x["c"][0]["n"]] = (y["callee"].split("::")[-1], x)
+            if x["k"] == "MCall" and (x.get("callee") or "").split("::")[-1] in ("multiplyRow", "divideRow", "multiplyColumn", "divideColumn"):
+                o = call_obj(x)
+                a = call_args(x)
+                if o is None or o["k"] != "MemberExpr" or o["n"] not in src or not a or a[0] is None or "_radius" not in show(a[0]):
+                    continue
+                rot = src[o["n"]][0]
+                axis = "Row" if x["callee"].endswith("Row") else "Column"
+                ok = (rot == "getMatrixDirect" and axis == "Column") or (rot == "getMatrixInverse" and axis == "Row")
+                n += 1
+                chk.analysed(f)
+                chk.ob("C03t", "%s: `%s` scales the %ss of %s by the radii (anisotropy axes)" % (f.name, o["n"], axis.lower(), rot), f.loc(x), ok,
+                       detail=None if ok else "the %ss of the %s rotation matrix are the USER axes: scaling them by the radii builds the tensor of the mirrored "
+                       "rotation (ranges measured along axes turned by the opposite angle)" % (axis.lower(), "direct" if rot == "getMatrixDirect" else "inverse"),
+                       key="C03t|%s|%s" % (f.name, o["n"]))
+    chk.floor("C03t", n, 3)
+
+
 def rule_i(prog, chk):
     """C03i - positions in the list of ACTIVE structures vs structure ranks (E5 kinds).  When a calculation mode carries a list of
     active structures, a loop variable bounded by the length of that list is a POSITION in the list; the structure it designates
@@ -696,7 +729,7 @@ def main(tier):
                 "Bessel ...), sums, anisotropy / rotation geometry and sill matrices are NOT decided.")
     cov = os.path.join(REPO, "src/Covariances")
     units = [os.path.join(cov, x) for x in sorted(os.listdir(cov)) if x.startswith("Cov") and x.endswith(".cpp")] + \
-            [os.path.join(cov, x) for x in ("ACovFunc.cpp", "ACov.cpp", "ACovAnisoList.cpp")] + [os.path.join(REPO, "src/Model/Model.cpp")]
+            [os.path.join(cov, x) for x in ("ACovFunc.cpp", "ACov.cpp", "ACovAnisoList.cpp")] + [os.path.join(REPO, "src/Model/Model.cpp"), os.path.join(REPO, "src/Basic/Tensor.cpp")]
     if tier == "thorough":
         units = facts.all_units()
     d = extract(units, "C03-" + tier)
@@ -715,6 +748,7 @@ def main(tier):
     rule_i(prog, chk)
     rule_g2(prog, chk)
     rule_s(prog, chk)
+    rule_t(prog, chk)
     # C03o: the factories of a structure apply their setters in an order that keeps what was asked: a setter that converts with
     # the current third parameter (setRanges: practical range -> scale) is not followed by the setter that replaces the parameter
     # (rule O of C08, c08_order.py: transitive read / write sets of the setters called on one local object)
